@@ -29,6 +29,7 @@ func (m *Mon) checkStep(sc *StepCtx) {
 	m.stepC14(sc, si)
 	m.stepC15(sc, si)
 	m.stepC16(sc, si)
+	m.stepC18(sc)
 	m.stepC20(sc, si)
 }
 
@@ -627,11 +628,12 @@ func (m *Mon) stepC06C07(sc *StepCtx, si stepInfo) {
 			m.fail(sc, "C07", "volume-moves-by-responses-only", "deleted@"+cls, "volume record %q disappeared", strings.ReplaceAll(k, "\x00", "|"))
 		}
 	}
-	if si.respond != nil && si.respGood {
+	if si.respond != nil {
+		// every response the provider delivered (accepted and recorded) counts, whatever its output
 		k := si.respCtx.Consumer.String() + "\x00" + si.respCtx.ServiceName + "\x00" + si.respReq.Provider.String()
-		m.hit("C07", "volume-plus-one", fmt.Sprintf("v%d", minInt(int(pre.Volumes[k]), 4)))
+		m.hit("C07", "volume-plus-one", fmt.Sprintf("v%d/good%v", minInt(int(pre.Volumes[k]), 4), si.respGood))
 		if post.Volumes[k] != pre.Volumes[k]+1 {
-			m.fail(sc, "C07", "volume-plus-one", "", "well-formed response did not raise the delivered volume by one (%d -> %d)", pre.Volumes[k], post.Volumes[k])
+			m.fail(sc, "C07", "volume-plus-one", fmt.Sprintf("good%v", si.respGood), "an accepted response (well-formed=%v) did not raise the delivered volume by one (%d -> %d)", si.respGood, pre.Volumes[k], post.Volumes[k])
 		}
 	}
 
